@@ -34,8 +34,8 @@ META = {
     ],
     "bounds": "3 concrete file sets (mixed case + nesting; names that are prefixes of other names and of folder names; names differing "
               "only in case), each as Virtual, Zip, VPK and directory filesystem; query / folder = symbolic str over {a A b B / \\ . x} "
-              "with an exact length per slice (quick: lookup 0..4, walk 0..3; thorough: lookup 0..6, walk 0..5); folder spellings are "
-              "canonical relative paths with an optional trailing slash; chains = histories of k add_sys calls (quick k<=3, thorough k<=4) "
+              "with an exact length per slice (quick: lookup 0..4, walk 0..3; thorough: lookup 0..5, walk 0..5); folder spellings are "
+              "canonical relative paths with an optional trailing slash; chains = histories of k add_sys calls (quick k<=3, thorough k<=4; for k>=3 the subfolder indices are concrete per slice) "
               "whose member (index into a pool of 3), subfolder (index into ['', 'a', 'ab']) and priority bit are solver variables "
               "(enumeration in solver clothing for the indices), query length <= 3",
     "outside": "other characters (non-ASCII case folding), longer names, query spellings with '.', '..' or empty components (observed: "
@@ -544,10 +544,11 @@ def h_chain_walk_w(q: str, m0: int, m1: int, m2: int, m3: int, x0: int, x1: int,
 _DEV_EXCLUDE = os.environ.get("VF_C19_DEV_EXCLUDE")       # development only: emulates an *open* known finding's region
 
 
-def _kf(sl, names):
+def _kf(sl, name):
     if _DEV_EXCLUDE:
+        reg = "len(q) == n and noncanon(q)" if name == "lookup" else "len(q) == n and noncanon2(q)"
         for d in sl:
-            d["_exclude"] = [r for r in _DEV_EXCLUDE.split(";;") if r]
+            d["_exclude"] = [reg]
     return sl
 
 
@@ -569,10 +570,10 @@ def _hist(k, sym_m, sym_x, sym_p, fixed=None):
 def obligations(tier):
     quick = tier == "quick"
     obls = []
-    look_lens = range(0, 5) if quick else range(0, 7)
+    look_lens = range(0, 5) if quick else range(0, 6)
     walk_lens = range(0, 4) if quick else range(0, 6)
     sl = [{"n": n, "fset": s, "backend": b} for s in SETS for b in BACKENDS for n in look_lens]
-    obls.append(Obl("lookup", MOD, "h_lookup", slices=_kf(sl, "lookup"), budget_s=300 if quick else 2400, per_path_s=30,
+    obls.append(Obl("lookup", MOD, "h_lookup", slices=_kf(sl, "lookup"), budget_s=900 if quick else 2400, per_path_s=30,
                     desc="existence, fs[name].open_bin(), fs.open_bin(name), fs.open_str(name) agree with the folded-name oracle "
                          "(directory backend: exact spellings)", bound="exact query length per slice over ALPHA"))
     obls.append(Obl("lookup.witness", MOD, "h_lookup_w", slices=[{"n": 3, "fset": "dup", "backend": b} for b in BACKENDS],
@@ -581,35 +582,54 @@ def obligations(tier):
     obls.append(Obl("walk", MOD, "h_walk", slices=sl, budget_s=300 if quick else 2400, per_path_s=30,
                     desc="walk_folder(p) lists exactly the stored files inside p as a folder; every listed name exists and looks up "
                          "to the same bytes; iter(fs) == walk_folder('')", bound="exact folder length per slice over ALPHA, canonical spellings"))
-    obls.append(Obl("walk.witness", MOD, "h_walk_w", slices=[{"n": 1, "fset": "mix", "backend": b} for b in BACKENDS],
+    obls.append(Obl("walk.witness", MOD, "h_walk_w", slices=[{"n": 1, "fset": "mix", "backend": b} for b in BACKENDS[:3]] + [{"n": 2, "fset": "pre", "backend": "raw"}],
                     budget_s=120, per_path_s=30, witness=True, desc="reachability: a non-empty folder is listed"))
-    # chains: members and priorities symbolic, subfolders symbolic for one step at a time
-    ks = (1, 2, 3) if quick else (1, 2, 3, 4)
-    sl = []
-    for pool in POOLS:
-        for k in ks:
-            for n in ((1, 3) if quick else (0, 1, 2, 3)):
-                if k <= 2:
-                    sl.append(dict(_hist(k, True, True, True), n=n, k=k, pool=pool))
+    # chains. k <= 2: everything symbolic (sliced on the first member); k >= 3: members and priority bits symbolic, the
+    # subfolder indices concrete per slice (a few combinations)
+    XCOMBOS = [(1, 0, 1, 0), (0, 1, 1, 2)] if quick else [(1, 0, 1, 0), (0, 1, 1, 2), (1, 0, 2, 0), (0, 0, 0, 0)]
+
+    def chain_slices(pools, ks, lens_k12, lens_k3, extra_n3_pool=None):
+        out = []
+        for pool in pools:
+            for k in ks:
+                if k == 1:
+                    out += [dict(_hist(1, True, True, True), n=n, k=1, pool=pool) for n in lens_k12]
+                elif k == 2:
+                    for n in lens_k12:
+                        if n <= 1:
+                            out += [dict(_hist(2, True, True, True, {"m0": m0}), n=n, k=2, pool=pool) for m0 in range(3)]
+                        else:
+                            out += [dict(_hist(2, True, True, True, {"m0": m0, "x0": x0}), n=n, k=2, pool=pool)
+                                    for m0 in range(3) for x0 in range(3)]
                 else:
-                    for m0 in range(3):
-                        for x0 in range(3):
-                            sl.append(dict(_hist(k, True, True, True, {"m0": m0, "x0": x0}), n=n, k=k, pool=pool))
-        sl.append(dict(_hist(3, True, True, False), n=1, k=3, pool=pool, ctor=True))
-    obls.append(Obl("chain_lookup", MOD, "h_chain_lookup", slices=_kf(sl, "chain_lookup"), budget_s=600 if quick else 3000, per_path_s=30,
+                    for n in lens_k3:
+                        for xc in XCOMBOS:
+                            fx = {f"x{i}": xc[i] for i in range(k)}
+                            if k == 3:
+                                out.append(dict(_hist(k, True, False, True, fx), n=n, k=k, pool=pool))
+                            else:
+                                out += [dict(_hist(k, True, False, True, dict(fx, m0=m0)), n=n, k=k, pool=pool) for m0 in range(3)]
+        return out
+
+    if quick:
+        sl = chain_slices(["vzk", "rvz"], (1, 2, 3), (1,), (1,))
+        sl += [dict(_hist(2, True, True, True, {"m0": m0, "x0": 1}), n=2, k=2, pool="vzk") for m0 in range(3)]
+        sl += [dict(_hist(1, True, True, True), n=n, k=1, pool=pool) for n in (2, 3) for pool in POOLS]
+    else:
+        sl = chain_slices(list(POOLS), (1, 2, 3), (0, 1, 2, 3), (1,))
+        sl += chain_slices(["vzk"], (4,), (), (1,))[:6]
+    for pool in POOLS:
+        sl.append(dict(_hist(3, True, False, False, {"x0": 0, "x1": 1, "x2": 2}), n=1, k=3, pool=pool, ctor=True))
+    obls.append(Obl("chain_lookup", MOD, "h_chain_lookup", slices=_kf(sl, "chain_lookup"), budget_s=900 if quick else 3000, per_path_s=30,
                     desc="a chain built by any history of add_sys calls answers with the first member (in priority order) that has "
                          "the name, addressing subfolder members relative to their subfolder", bound="k add_sys steps, query length n"))
-    wsl = []
-    for pool in ("vzk", "kvz"):
-        for k in ks:
-            for n in ((0, 1, 2) if quick else (0, 1, 2, 3)):
-                if k <= 2:
-                    wsl.append(dict(_hist(k, True, True, True), n=n, k=k, pool=pool))
-                else:
-                    for m0 in range(3):
-                        for x0 in range(3):
-                            wsl.append(dict(_hist(k, True, True, True, {"m0": m0, "x0": x0}), n=n, k=k, pool=pool))
-    obls.append(Obl("chain_walk", MOD, "h_chain_walk", slices=wsl, budget_s=600 if quick else 3000, per_path_s=30,
+    if quick:
+        wsl = chain_slices(["vzk", "kvz"], (1, 2), (0, 1), ())
+        wsl += chain_slices(["vzk", "kvz"], (3,), (), (0,))[::2]
+    else:
+        wsl = chain_slices(["vzk", "kvz"], (1, 2, 3), (0, 1, 2, 3), (0, 1))
+        wsl += chain_slices(["kvz"], (4,), (), (0,))[:6]
+    obls.append(Obl("chain_walk", MOD, "h_chain_walk", slices=wsl, budget_s=900 if quick else 3000, per_path_s=30,
                     desc="walk_folder_repeat lists every member's files inside the folder (relative to the member's subfolder) in chain "
                          "order; walk_folder lists each folded name once with the first member's content; every listed name looks up",
                     bound="k add_sys steps, folder length n"))
